@@ -325,12 +325,15 @@ def run_daliserver_sequence(spec, multi):
     return cmds, results
 
 
-def run_daliserver(kind, out, multi):
+def run_daliserver(kind, out, multi, oob=None):
     import dali.driver.daliserver as DS
     cmd = build_cmd(kind, 3)
     reply = {"none": bytes([2, 0, 0, 0]), "err": bytes([2, 255, 0, 0])}.get(out[0]) or bytes([2, 1, out[1], 0])
     log = []
     script = [reply, reply]
+    if oob is not None:
+        # daliserver pushes a frame that answers nobody's command (status `oob`: bus traffic of another client) ahead of the reply
+        script = [bytes([2, oob, 0xFF, 5])] + script
 
     class _S:
         @staticmethod
@@ -632,6 +635,17 @@ def run_shard(shard):
                     res["evaluations"] += 1
                     if o != "refused" and len(log) != (2 if cmd.sendtwice else 1):
                         add_violation(res, f"C16:daliserver:{kind}:transmissions", f"{len(log)} packets for sendtwice={cmd.sendtwice}", case)
+                    # a frame with a status that denotes no answer to a command (2, 3, 0x80, 254) ahead of the reply: the
+                    # caller gets its own answer or a CommunicationError - never an answer made up from that frame
+                    for oob in (2, 3, 0x80, 254):
+                        cmd, r, log = run_daliserver(kind, out, multi, oob=oob)
+                        res["evaluations"] += 1
+                        if isinstance(r, Exception) and type(r).__name__ == "CommunicationError":
+                            observe(res, "daliserver_out_of_band_frame_refused")
+                            continue
+                        case2 = {"driver": "daliserver", "spec": [[kind, list(out)]], "mode": "sync", "oob": oob}
+                        o2 = judge_result(res, "daliserver", kind, out, cmd, r, True, case2, f"sync, status-{oob} frame ahead of the reply")
+                        outs.add(("daliserver-oob", kind, out, o2))
                 if out[0] != "err" and kind not in ():
                     cmd, r, log = run_atx(kind, out)
                     case = {"driver": "atx", "spec": [[kind, list(out)]], "mode": "sync"}
